@@ -98,7 +98,18 @@ func run(c Case) (pbt.Outcome, error) {
 	s.IdleSites = map[string]bool{"loop:idle": true}
 	s.Tau = 5 * time.Millisecond
 	log.OnCall = s.Yield
-	tally.VerifSetHooks(&tally.VerifHooks{Yield: s.Yield, Lock: s.Lock})
+	// the call that won the race to close is the one that passes the hook right after the
+	// compare-and-swap; its thread name is remembered (intervals in the log cannot tell once
+	// closers really run in parallel)
+	var winner atomic.Value
+	tally.VerifSetHooks(&tally.VerifHooks{Yield: func(site string) {
+		if site == "scope.Close:cas-won" {
+			if n := s.CurrentName(); strings.HasPrefix(n, "closer") {
+				winner.CompareAndSwap(nil, n)
+			}
+		}
+		s.Yield(site)
+	}, Lock: s.Lock})
 	defer tally.VerifSetHooks(nil)
 
 	root, closer := tally.VerifNewRootScope(opts, time.Duration(c.IntervalUS)*time.Microsecond, 2)
@@ -297,10 +308,13 @@ func run(c Case) (pbt.Outcome, error) {
 			if closeSeq < lastFlushBeforeRet || closeSeq < lastDelivery {
 				errs.Addf("reporter closed (log %d) before the final flush (log %d) / last delivery (log %d)", closeSeq, lastFlushBeforeRet, lastDelivery)
 			}
-			winners := 0
+			w, _ := winner.Load().(string)
+			wk := strings.TrimPrefix(w, "closer")
+			if w == "" {
+				errs.Addf("the reporter was closed but no Close call passed the point right after winning the race")
+			}
 			for k, ci := range calls {
-				if ci.call < closeSeq && closeSeq < ci.ret {
-					winners++
+				if k == wk {
 					want := "<nil>"
 					if c.Closer == 2 {
 						want = errReporterClose.Error()
@@ -308,12 +322,12 @@ func run(c Case) (pbt.Outcome, error) {
 					if ci.err != want {
 						errs.Addf("Close call %s closed the reporter and returned %q, want the reporter's error %q", k, ci.err, want)
 					}
-				} else if ci.err != "<nil>" && !(c.Closer == 2 && ci.err == errReporterClose.Error() && false) {
+					if !(ci.call < closeSeq && closeSeq < ci.ret) {
+						errs.Addf("the reporter's Close (log %d) did not happen inside the winning Close call %s (log %d..%d)", closeSeq, k, ci.call, ci.ret)
+					}
+				} else if ci.err != "<nil>" {
 					errs.Addf("Close call %s did not close the reporter but returned %q, want nil", k, ci.err)
 				}
-			}
-			if winners < 1 {
-				errs.Addf("the reporter's Close (log %d) did not happen inside any Close call", closeSeq)
 			}
 		}
 	}
@@ -329,9 +343,9 @@ func run(c Case) (pbt.Outcome, error) {
 	// earlier (weakest reading: the barrier is judged once all calls have returned), and their own
 	// reading of the flag is not ordered with the winner's progress
 	_ = lastRetMark
-	for k, ci := range calls {
-		if ci.call < lastFlushBeforeRet && lastFlushBeforeRet < ci.ret && !ci.loopDone {
-			errs.Addf("when Close call %s (which ran the final report) returned, the reporting goroutine had not ended", k)
+	if w, _ := winner.Load().(string); w != "" {
+		if ci := calls[strings.TrimPrefix(w, "closer")]; ci != nil && !ci.loopDone {
+			errs.Addf("when Close call %s (which won the race and ran the final report) returned, the reporting goroutine had not ended", strings.TrimPrefix(w, "closer"))
 		}
 	}
 	if againCall >= 0 {
